@@ -69,18 +69,36 @@ def mk (ctl : Ctl) (stack : List Frame) (vars : List (Option Val)) (lists : List
   { ctl := ctl, stack := stack, vars := vars, lists := lists, ccSeen := none, genSeen := none }
 
 /-- the method (`get` / `created`) whose cullCount bookkeeping / embedded cull runs for `k` -/
-def ccCtx (dc : Bool) : K → Option (Block × CK × List (Option Val))
-  | .get i => if dc then some (G, .get i, [some (.key i), none]) else none
-  | .create i o => if dc then some (C, .created i o, [some (.key i), some (.obj o)]) else none
-  | _ => none
+def ccB : K → Block
+  | .create _ _ => C
+  | _ => G
+def ccCK : K → CK
+  | .get i => .get i
+  | .create i o => .created i o
+  | _ => .unit
+def ccVs : K → List (Option Val)
+  | .get i => [some (.key i), none]
+  | .create i o => [some (.key i), some (.obj o)]
+  | _ => []
+def ccOK (dc : Bool) : K → Prop
+  | .get _ => dc = true
+  | .create _ _ => dc = true
+  | _ => False
 
 /-- the frames below an activation of `cull` -/
-def outer (dc : Bool) : K → Option (List Frame × CK)
-  | .get i => if dc then some ([.call [some (.key i), none] [], .seq .nil, .seq (bdrop 1 G), .seq .nil], .get i) else none
-  | .create i o =>
-    if dc then some ([.call [some (.key i), some (.obj o)] [], .seq .nil, .seq (bdrop 1 C), .seq .nil], .created i o) else none
-  | .cull => some ([], .unit)
-  | _ => none
+def outerFs : K → List Frame
+  | .get i => [.call [some (.key i), none] [], .seq .nil, .seq (bdrop 1 G), .seq .nil]
+  | .create i o => [.call [some (.key i), some (.obj o)] [], .seq .nil, .seq (bdrop 1 C), .seq .nil]
+  | _ => []
+def outerOK (dc : Bool) : K → Prop
+  | .get _ => dc = true
+  | .create _ _ => dc = true
+  | .cull => dc = true
+  | _ => False
+/-- `caches` is consulted on behalf of a get / create / expire / expireAll (a direct `cull()` never gets there) -/
+def csOK : K → Prop
+  | .cull => False
+  | _ => True
 
 /-- the range indices still to come name the ids `Conc` still has to visit -/
 def Idx (keys : List Val) : List Val → List Id → Prop
@@ -90,21 +108,21 @@ def Idx (keys : List Val) : List Val → List Id → Prop
 
 def PcSim (dc : Bool) : Pc → CPc → MTh → Prop
   | .idle, cpc, m => cpc = .idle ∧ m = MTh.idle
-  | .csGet k, cpc, m => cpc = .csGet k ∧ m = MTh.idle
-  | .csSet k, cpc, m => cpc = .csSet k ∧ m = MTh.idle
+  | .csGet k, cpc, m => csOK k ∧ cpc = .csGet k ∧ m = MTh.idle
+  | .csSet k, cpc, m => ccOK true k ∧ cpc = .csSet k ∧ m = MTh.idle
   | .select i, cpc, m => cpc = .select i ∧ m = MTh.idle
   | .insert i, cpc, m => cpc = .insert i ∧ m = MTh.idle
   | .crSelect i o, cpc, m => cpc = .crSelect i o ∧ m = MTh.idle
   | .eaEntry, cpc, m => cpc = .eaEntry ∧ m = MTh.idle
   | .cuEntry, cpc, m => cpc = .cuEntry ∧ m = MTh.idle
   -- cullCount bookkeeping of get / created
-  | .ccTest k, cpc, m => ∃ b ck vs, ccCtx dc k = some (b, ck, vs) ∧ cpc = .inM ck ∧ m = mk (.run b) [.seq .nil] vs []
-  | .ccRead k, cpc, m => ∃ b ck vs, ccCtx dc k = some (b, ck, vs) ∧ cpc = .inM ck ∧
-      m = mk (.run (sElse (bhead b))) [.seq (bdrop 1 b), .seq .nil] vs []
-  | .ccWrite k v, cpc, m => ∃ b ck vs c, ccCtx dc k = some (b, ck, vs) ∧ cpc = .inM ck ∧ v = c + 1 ∧
-      m = { mk (.run (sElse (bhead b))) [.seq (bdrop 1 b), .seq .nil] vs [] with ccSeen := some c }
-  | .ccReset k, cpc, m => ∃ b ck vs, ccCtx dc k = some (b, ck, vs) ∧ cpc = .inM ck ∧
-      m = mk (.run (sThen (bhead b))) [.seq (bdrop 1 b), .seq .nil] vs []
+  | .ccTest k, cpc, m => ccOK dc k ∧ cpc = .inM (ccCK k) ∧ m = mk (.run (ccB k)) [.seq .nil] (ccVs k) []
+  | .ccRead k, cpc, m => ccOK dc k ∧ cpc = .inM (ccCK k) ∧
+      m = mk (.run (sElse (bhead (ccB k)))) [.seq (bdrop 1 (ccB k)), .seq .nil] (ccVs k) []
+  | .ccWrite k v, cpc, m => ccOK dc k ∧ cpc = .inM (ccCK k) ∧ 0 < v ∧
+      m = { mk (.run (sElse (bhead (ccB k)))) [.seq (bdrop 1 (ccB k)), .seq .nil] (ccVs k) [] with ccSeen := some (v - 1) }
+  | .ccReset k, cpc, m => ccOK dc k ∧ cpc = .inM (ccCK k) ∧
+      m = mk (.run (sThen (bhead (ccB k)))) [.seq (bdrop 1 (ccB k)), .seq .nil] (ccVs k) []
   -- get, doCache
   | .probeL i, cpc, m => dc = true ∧ cpc = .inM (.get i) ∧
       m = mk (.run (sBody (bhead (bdrop 1 G)))) [.tryKey (sHandler (bhead (bdrop 1 G))) (sOrelse (bhead (bdrop 1 G))), .seq (bdrop 2 G), .seq .nil]
@@ -155,9 +173,7 @@ def PcSim (dc : Bool) : Pc → CPc → MTh → Prop
   | .exInStrong i, cpc, m => dc = true ∧ cpc = .inM .unit ∧ m = mk (.run EB) [.tryFin EF, .seq .nil] [some (.key i)] []
   | .exDelStrong i, cpc, m => dc = true ∧ cpc = .inM .unit ∧
       m = mk (.run (sThen (bhead EB))) [.seq (bdrop 1 EB), .tryFin EF, .seq .nil] [some (.key i)] []
-  | .exInWeak i, cpc, m => cpc = .inM .unit ∧
-      (if dc then m = mk (.run (bdrop 1 EB)) [.tryFin EF, .seq .nil] [some (.key i)] []
-       else m = mk (.run EB) [.tryFin EF, .seq .nil] [some (.key i)] [])
+  | .exInWeak i, cpc, m => cpc = .inM .unit ∧ m = mk (.run (bdrop 1 EB)) [.tryFin EF, .seq .nil] [some (.key i)] []
   | .exDelWeak i, cpc, m => cpc = .inM .unit ∧
       m = mk (.run (sThen (bhead (bdrop 1 EB)))) [.seq .nil, .tryFin EF, .seq .nil] [some (.key i)] []
   | .exRel, cpc, m => cpc = .inM .unit ∧ ∃ v, m = mk (.run EF) [.finEnd .norm, .seq .nil] [v] []
@@ -173,31 +189,32 @@ def PcSim (dc : Bool) : Pc → CPc → MTh → Prop
   | .eaRel, cpc, m => cpc = .inM .unit ∧ ∃ v0 v1, m = mk (.run AF) [.finEnd .norm, .seq .nil] [v0, v1] []
   | .eaRelErr, cpc, m => cpc = .inM .unit ∧ ∃ v0 v1, m = mk (.run AF) [.finEnd (.exc .runtimeError), .seq .nil] [v0, v1] []
   -- cull
-  | .cuAcq k, cpc, m => ∃ fs ck, outer dc k = some (fs, ck) ∧ cpc = .inM ck ∧
-      m = mk (.run cullProg) fs [none, none, none, none] [[]]
-  | .cuWeakKeys k, cpc, m => ∃ fs ck, outer dc k = some (fs, ck) ∧ cpc = .inM ck ∧
-      m = mk (.run CB) (.tryFin CF :: .seq .nil :: fs) [none, none, none, none] [[]]
-  | .cuWeakChk k ks, cpc, m => ∃ fs ck key rest l0, outer dc k = some (fs, ck) ∧ cpc = .inM ck ∧ ks = key :: rest ∧
-      m = mk (.run cull_for0) (.loopList 0 cull_for0 (rest.map Val.key) :: .seq (bdrop 2 CB) :: .tryFin CF :: .seq .nil :: fs)
+  | .cuAcq k, cpc, m => outerOK dc k ∧ cpc = .inM (ccCK k) ∧
+      m = mk (.run cullProg) (outerFs k) [none, none, none, none] [[]]
+  | .cuWeakKeys k, cpc, m => outerOK dc k ∧ cpc = .inM (ccCK k) ∧
+      m = mk (.run CB) (.tryFin CF :: .seq .nil :: outerFs k) [none, none, none, none] [[]]
+  | .cuWeakChk k (key :: rest), cpc, m => outerOK dc k ∧ cpc = .inM (ccCK k) ∧ ∃ l0,
+      m = mk (.run cull_for0) (.loopList 0 cull_for0 (rest.map Val.key) :: .seq (bdrop 2 CB) :: .tryFin CF :: .seq .nil :: outerFs k)
         [some (.key key), none, none, none] [l0]
-  | .cuWeakPop k key _ rest, cpc, m => ∃ fs ck l0, outer dc k = some (fs, ck) ∧ cpc = .inM ck ∧
+  | .cuWeakChk _ [], _, _ => False
+  | .cuWeakPop k key _ rest, cpc, m => outerOK dc k ∧ cpc = .inM (ccCK k) ∧ ∃ l0,
       m = mk (.run (sThen (bhead cull_for0)))
-        (.seq .nil :: .loopList 0 cull_for0 (rest.map Val.key) :: .seq (bdrop 2 CB) :: .tryFin CF :: .seq .nil :: fs)
+        (.seq .nil :: .loopList 0 cull_for0 (rest.map Val.key) :: .seq (bdrop 2 CB) :: .tryFin CF :: .seq .nil :: outerFs k)
         [some (.key key), none, none, none] [l0]
-  | .cuStrongKeys k, cpc, m => ∃ fs ck v0 l0, outer dc k = some (fs, ck) ∧ cpc = .inM ck ∧
-      m = mk (.run (bdrop 2 CB)) (.tryFin CF :: .seq .nil :: fs) [v0, none, none, none] [l0]
-  | .cuStrongGet k i rest, cpc, m => ∃ fs ck v0 j v3 keys ivs, outer dc k = some (fs, ck) ∧ cpc = .inM ck ∧ Idx keys ivs rest ∧
-      m = mk (.run (bdrop 1 cull_for1)) (.loopList 1 cull_for1 ivs :: .seq (bdrop 4 CB) :: .tryFin CF :: .seq .nil :: fs)
+  | .cuStrongKeys k, cpc, m => outerOK dc k ∧ cpc = .inM (ccCK k) ∧ ∃ v0 l0,
+      m = mk (.run (bdrop 2 CB)) (.tryFin CF :: .seq .nil :: outerFs k) [v0, none, none, none] [l0]
+  | .cuStrongGet k i rest, cpc, m => outerOK dc k ∧ cpc = .inM (ccCK k) ∧ ∃ v0 j v3 keys ivs, Idx keys ivs rest ∧
+      m = mk (.run (bdrop 1 cull_for1)) (.loopList 1 cull_for1 ivs :: .seq (bdrop 4 CB) :: .tryFin CF :: .seq .nil :: outerFs k)
         [v0, some (.int j), some (.key i), v3] [keys]
-  | .cuStrongDel k i o rest, cpc, m => ∃ fs ck v0 j keys ivs, outer dc k = some (fs, ck) ∧ cpc = .inM ck ∧ Idx keys ivs rest ∧
-      m = mk (.run (bdrop 2 cull_for1)) (.loopList 1 cull_for1 ivs :: .seq (bdrop 4 CB) :: .tryFin CF :: .seq .nil :: fs)
+  | .cuStrongDel k i o rest, cpc, m => outerOK dc k ∧ cpc = .inM (ccCK k) ∧ ∃ v0 j keys ivs, Idx keys ivs rest ∧
+      m = mk (.run (bdrop 2 cull_for1)) (.loopList 1 cull_for1 ivs :: .seq (bdrop 4 CB) :: .tryFin CF :: .seq .nil :: outerFs k)
         [v0, some (.int j), some (.key i), some (.wref o)] [keys]
-  | .cuWeakSet k i o rest, cpc, m => ∃ fs ck v0 j keys ivs, outer dc k = some (fs, ck) ∧ cpc = .inM ck ∧ Idx keys ivs rest ∧
+  | .cuWeakSet k i o rest, cpc, m => outerOK dc k ∧ cpc = .inM (ccCK k) ∧ ∃ v0 j keys ivs, Idx keys ivs rest ∧
       m = mk (.run (sThen (bhead (bdrop 3 cull_for1))))
-        (.seq .nil :: .loopList 1 cull_for1 ivs :: .seq (bdrop 4 CB) :: .tryFin CF :: .seq .nil :: fs)
+        (.seq .nil :: .loopList 1 cull_for1 ivs :: .seq (bdrop 4 CB) :: .tryFin CF :: .seq .nil :: outerFs k)
         [v0, some (.int j), some (.key i), some (.wref o)] [keys]
-  | .cuRel k, cpc, m => ∃ fs ck v0 v1 v2 v3 l0, outer dc k = some (fs, ck) ∧ cpc = .inM ck ∧
-      m = mk (.run CF) (.finEnd .norm :: .seq .nil :: fs) [v0, v1, v2, v3] [l0]
+  | .cuRel k, cpc, m => outerOK dc k ∧ cpc = .inM (ccCK k) ∧ ∃ v0 v1 v2 v3 l0,
+      m = mk (.run CF) (.finEnd .norm :: .seq .nil :: outerFs k) [v0, v1, v2, v3] [l0]
   | .cuRelErr, _, _ => False
 
 /-- thread by thread -/
